@@ -17,6 +17,15 @@ def generate(rng, tier):
     cases = []
     for i in range(n):
         c = F.gen_ft_case(rng, tier, lorch=(i % 2 == 0), channel=1, win=("none" if i % 3 else None))
+        if i % 15 == 7 and len(c["xin"]) >= 3:
+            # a dead sample (NaN / infinite) among the data: the uncertainty does not depend on the data values
+            c["yin"] = list(c["yin"])
+            c["yin"][len(c["yin"]) // 2] = float("nan") if (i // 15) % 2 else float("inf")
+            if (i // 15) % 3 == 0:
+                c["dy"] = None
+                c["desc"]["dy"] = "none"
+            c["int_dtype"] = [c["int_dtype"][0], False, c["int_dtype"][2]]
+            c["desc"]["data"] = str(c["desc"]["data"]) + "+nonfinite sample"
         cases.append(c)
     return cases
 
